@@ -40,3 +40,23 @@ Proof. intros index ops A t d r. apply getitem_nd. Qed.
 (* FINDING (known): roll on an axis of extent 0 fails at run time *)
 Theorem C06_roll_extent0_refuted : ndx_roll {| shape := [0%nat]; data := @nil Z |} [1%Z] (Some [0%Z]) 0%Z = GetItem.RuntimeError.
 Proof. reflexivity. Qed.
+
+(* the statements below quantify over every tensor / every extent with the emitted graph fixed by rank and
+   static parameters (shifts, axes, keepdims): *)
+From ND Require Import Ndx.RollProof Ndx.ReduceMore Ndx.ReduceMoreFacts Ndx.NonzeroFacts.
+(* roll, n-D: one list of (shift, axis) pairs is right for every tensor whose rolled axes are non-empty *)
+Theorem C06_roll_nd_every_shape : forall (shifts axs : list Z), length shifts = length axs ->
+  forall (A : Type) (t : tensor A) (d : A), wf t -> Forall (step_ok (shape t)) (combine shifts axs) ->
+  ndx_roll t shifts (Some axs) d = GetItem.Done (tab (shape t) (fun idx => get t (roll_src (shape t) (combine shifts axs) idx) d)).
+Proof. intros shifts axs H A t d Hw Hs. now apply ndx_roll_nd. Qed.
+(* all / any: every extent, the empty reduction included (no static-size test survives in the graph) *)
+Theorem C06_all_every_shape : forall axis keep (t : tensor Z), axis_valid (length (shape t)) axis -> ndx_all t axis keep = np_all t axis keep.
+Proof. intros. now apply ndx_all_is_np_all. Qed.
+Theorem C06_any_every_shape : forall axis keep (t : tensor Z), axis_valid (length (shape t)) axis -> ndx_any t axis keep = np_any t axis keep.
+Proof. intros. now apply ndx_any_is_np_any. Qed.
+(* cumulative_sum and nonzero: every extent *)
+Theorem C06_cumsum_every_shape : forall ax (t : tensor Z) idx, (ax < length (shape t))%nat -> Tensor.in_bounds (shape t) idx ->
+  get (onnx_cumsum t ax) idx 0%Z = zsum (map (fun i => get t (replace_nth ax i idx) 0%Z) (seq 0 (S (nth ax idx 0%nat)))).
+Proof. intros. now apply onnx_cumsum_spec. Qed.
+Theorem C06_nonzero_every_shape : forall sh data, ndx_nonzero sh data = nonzero_coords sh data (all_idx sh).
+Proof. exact ndx_nonzero_is_numpy. Qed.
